@@ -28,12 +28,13 @@ fn scenario(id: &str) -> Option<&'static dyn Scenario> {
         "C17" => &scen::encode::C17,
         "C08" => &scen::buckets::C08,
         "C12" => &scen::locals::C12,
+        "C18" => &scen::timers::C18,
         "C09" => &scen::descs::C09,
         _ => return None,
     })
 }
 
-pub const ALL: &[&str] = &["C01", "C02", "C03", "C04", "C05", "C06", "C07", "C08", "C09", "C10", "C11", "C12", "C13", "C14", "C15", "C17"];
+pub const ALL: &[&str] = &["C01", "C02", "C03", "C04", "C05", "C06", "C07", "C08", "C09", "C10", "C11", "C12", "C13", "C14", "C15", "C17", "C18"];
 
 fn tier_of(s: &str) -> Tier {
     match s {
